@@ -38,6 +38,11 @@ func (w *fileWriter) file(file *model.File) error {
 	}
 
 	for _, imp := range file.Imports {
+		if !imp.Used {
+			// Go does not compile unused imports
+			continue
+		}
+
 		pkg := importPackage(imp)
 		if imp.Name != imp.Package.Name {
 			// Types are referenced by the import alias
